@@ -27,7 +27,7 @@ type node struct {
 }
 
 func cond(pt, key, cmp, val string) *node { return &node{PT: pt, Key: key, Cmp: cmp, Val: val} }
-func comb(op string, kids ...*node) *node  { return &node{Op: op, Kids: kids} }
+func comb(op string, kids ...*node) *node { return &node{Op: op, Kids: kids} }
 
 func (n *node) isCond() bool { return n.Op == "" }
 
